@@ -62,6 +62,14 @@ struct SimSource {
     uint64_t partials = 0, zeros = 0;
     int64_t err_pos = -1; int err_code = 0;   // position-triggered error (returned when pos == err_pos, once)
     bool end_is_zero = false;      // at end of data return 0 instead of -ENODATA (never used by default)
+    // optional: the stream really lives in one of the library's own sources (source_from_buffer / source_from_chunks); the scripted
+    // driver then sits in front of it and passes every transfer on, so that the library's driver functions are what moves the octets
+    Source *inner = nullptr; bool inner_overrun = false;
+    ssize_t pass_on(void *buf, size_t k) {
+        ssize_t r = inner->source.chunk(inner->driver, buf, k);
+        if (r > 0) { if ((size_t)r > k || pos + (size_t)r > data.size()) inner_overrun = true; pos += (size_t)r; if (pos > data.size()) pos = data.size(); }
+        return r;
+    }
 
     void begin_op(const Json &scr) { script.load(scr); calls = 0; errors.clear(); partials = zeros = 0; }
     void begin_op() { script.clear(); calls = 0; errors.clear(); partials = zeros = 0; }
@@ -74,14 +82,25 @@ struct SimSource {
         if (err_pos >= 0 && (int64_t)pos == err_pos) {
             err_pos = -1; rv = -err_code; errors.push_back(rv); c->faults_fired++; COUNT("fault.src_error_at_position");
         } else if (pos >= data.size()) {
-            rv = -ENODATA; errors.push_back(rv);
+            rv = -ENODATA;
+            if (inner) { rv = pass_on(buf, n); if (rv >= 0) { inner_overrun = true; rv = -ENODATA; } }   // the library's source has to say so itself
+            errors.push_back(rv);
         } else if (script.next(s)) {
             if (s <= 0) { rv = (ssize_t)s; count_fault(c, s, true); if (s < 0) errors.push_back(s); else ++zeros; }
-            else {
+            else if (inner) {
+                size_t k = (size_t)s; if (k > n) k = n;
+                const size_t left = data.size() - pos;
+                rv = pass_on(buf, k);
+                if (rv < 0) errors.push_back(rv); else if ((size_t)rv < n && (size_t)rv < left) { ++partials; COUNT("fault.src_partial_transfer"); c->faults_fired++; }
+            } else {
                 size_t k = (size_t)s; if (k > n) k = n; if (k > data.size() - pos) k = data.size() - pos;
                 if (k < n && k < data.size() - pos) { ++partials; COUNT("fault.src_partial_transfer"); c->faults_fired++; }
                 memcpy(buf, data.data() + pos, k); pos += k; rv = (ssize_t)k;
             }
+        } else if (inner) {
+            const size_t left = data.size() - pos;
+            rv = pass_on(buf, n);
+            if (rv < 0) errors.push_back(rv); else if ((size_t)rv < n && (size_t)rv < left) { ++partials; COUNT("fault.src_partial_transfer_at_chunk_end"); c->faults_fired++; }
         } else {
             size_t k = n; if (k > data.size() - pos) k = data.size() - pos;
             memcpy(buf, data.data() + pos, k); pos += k; rv = (ssize_t)k;
@@ -97,9 +116,13 @@ struct SimSource {
         if (err_pos >= 0 && (int64_t)pos == err_pos) {
             err_pos = -1; rv = -err_code; errors.push_back(rv); c->faults_fired++; COUNT("fault.src_error_at_position");
         } else if (pos >= data.size()) {
-            rv = -ENODATA; errors.push_back(rv);
+            rv = -ENODATA;
+            if (inner) { unsigned char dummy; rv = (int)pass_on(&dummy, 1); if (rv >= 0) { inner_overrun = true; rv = -ENODATA; } }
+            errors.push_back(rv);
         } else if (script.next(s) && s <= 0) {
             rv = (int)s; count_fault(c, s, true); if (s < 0) errors.push_back(s); else ++zeros;
+        } else if (inner) {
+            rv = (int)pass_on(out, 1); if (rv < 0) errors.push_back(rv);
         } else {
             *(unsigned char *)out = data[pos++]; rv = 1;
         }
@@ -129,6 +152,14 @@ struct SimSink {
     uint64_t partials = 0, zeros = 0;
     int64_t err_pos = -1; int err_code = 0;  // error when got.size() == err_pos (once)
     size_t capacity = SIZE_MAX;              // -ENOMEM beyond this
+    // optional: the octets really go into one of the library's own sinks (sink_to_buffer); 'got' is read back from that buffer
+    Sink *inner = nullptr; ByteBuffer *inner_bb = nullptr;
+    ssize_t pass_on(const void *buf, size_t k) {
+        ssize_t r = inner->sink.chunk(inner->driver, buf, k);
+        const size_t u = inner_bb->used <= inner_bb->size ? inner_bb->used : inner_bb->size;   // read back what is new; the whole content is compared once at the end of the run
+        if (u >= got.size()) got.insert(got.end(), inner_bb->data + got.size(), inner_bb->data + u); else got.resize(u);
+        return r;
+    }
 
     void begin_op(const Json &scr) { script.load(scr); calls = 0; errors.clear(); partials = zeros = 0; }
     void begin_op() { script.clear(); calls = 0; errors.clear(); partials = zeros = 0; }
@@ -140,8 +171,13 @@ struct SimSink {
         int64_t s;
         if (err_pos >= 0 && (int64_t)got.size() == err_pos) {
             err_pos = -1; rv = -err_code; errors.push_back(rv); c->faults_fired++; COUNT("fault.snk_error_at_position");
-        } else if (got.size() >= capacity) {
+        } else if (!inner && got.size() >= capacity) {
             rv = -ENOMEM; errors.push_back(rv);
+        } else if (inner) {
+            size_t k = n;
+            if (script.next(s)) { if (s <= 0) { rv = (ssize_t)s; count_fault(c, s, false); if (s < 0) errors.push_back(s); else ++zeros; c->ev(EV_SNK_CALL, n, (uint64_t)rv, got.size()); return rv; } if ((size_t)s < k) k = (size_t)s; }
+            if (k < n) { ++partials; COUNT("fault.snk_partial_transfer"); c->faults_fired++; }
+            rv = pass_on(buf, k); if (rv < 0) { errors.push_back(rv); COUNT("fault.real_sink_buffer_full"); c->faults_fired++; }
         } else if (script.next(s)) {
             if (s <= 0) { rv = (ssize_t)s; count_fault(c, s, false); if (s < 0) errors.push_back(s); else ++zeros; }
             else {
@@ -163,10 +199,12 @@ struct SimSink {
         int64_t s;
         if (err_pos >= 0 && (int64_t)got.size() == err_pos) {
             err_pos = -1; rv = -err_code; errors.push_back(rv); c->faults_fired++; COUNT("fault.snk_error_at_position");
-        } else if (got.size() >= capacity) {
+        } else if (!inner && got.size() >= capacity) {
             rv = -ENOMEM; errors.push_back(rv);
         } else if (script.next(s) && s <= 0) {
             rv = (int)s; count_fault(c, s, false); if (s < 0) errors.push_back(s); else ++zeros;
+        } else if (inner) {
+            rv = (int)pass_on(&ch, 1); if (rv < 0) { errors.push_back(rv); COUNT("fault.real_sink_buffer_full"); c->faults_fired++; }
         } else {
             got.push_back(ch); rv = 1;
         }
